@@ -420,6 +420,47 @@ pub fn record(seed: u64, n: usize, out: &str) {
                 }
             }
         }
+        // currency codes are case-insensitive on the way in from a stored document too: save a valid market, re-case some
+        // occurrences of some codes in the text ("eur" -> "EUR" / "Eur"), load - it must be the same market
+        if i % 4 == 3 {
+            if let Outcome::Ok(Ok(f)) = try_new(&quotes, &base) {
+                if let Ok(txt) = serde_json::to_string(&f) {
+                    let mut t2 = String::new();
+                    let mut rest = txt.as_str();
+                    let codes: Vec<String> = rateslib::verif::fxrates_currencies(&f);
+                    // walk the text; at every quoted code decide afresh how to spell it
+                    'outer: while !rest.is_empty() {
+                        for c in codes.iter() {
+                            let pat = format!("\"{}\"", c);
+                            if rest.starts_with(&pat) {
+                                let spelled = match r.below(3) { 0 => c.clone(), 1 => c.to_uppercase(), _ => { let mut u = c.clone(); u[..1].make_ascii_uppercase(); u } };
+                                t2.push_str(&format!("\"{}\"", spelled));
+                                rest = &rest[pat.len()..];
+                                continue 'outer;
+                            }
+                        }
+                        let ch = rest.chars().next().unwrap();
+                        t2.push(ch);
+                        rest = &rest[ch.len_utf8()..];
+                    }
+                    let loaded = guard(|| serde_json::from_str::<FXRates>(&t2).map_err(|e| e.to_string()));
+                    let stored_order: Vec<(String, String)> = rateslib::verif::fxrates_quotes(&f).iter().map(|(l, rr, _, _)| (l.clone(), rr.clone())).collect();
+                    let qj: Vec<Value> = stored_order.iter().map(|(l, rr)| quotes.iter().find(|q| &q.l == l && &q.r == rr).unwrap().json()).collect();
+                    let basej = vec![codes[0].clone()];
+                    let names = probe_names(&quotes);
+                    let evj = match loaded {
+                        // (a market that cannot even be projected - a code it does not know under its own name - is a bad answer, not a tool error)
+                        Outcome::Ok(Ok(g)) => match guard(|| state_json(&g, &names, &mut r)) {
+                            Outcome::Ok(st) => json!({"op":"new","via":"json-recased","quotes":qj,"base":basej,"o":"ok","state":st}),
+                            Outcome::Panic(_) => json!({"op":"new","via":"json-recased","quotes":qj,"base":basej,"o":"panic"}),
+                        },
+                        Outcome::Ok(Err(_)) => json!({"op":"new","via":"json-recased","quotes":qj,"base":basej,"o":"err"}),
+                        Outcome::Panic(_) => json!({"op":"new","via":"json-recased","quotes":qj,"base":basej,"o":"panic"}),
+                    };
+                    o.emit(&json!({"h": i, "key": format!("fx/rnd/{}/load-recased", i), "ev": [evj]}));
+                }
+            }
+        }
         let nops = r.below(13) as usize;
         let ops = rand_ops(&mut r, &quotes, nops);
         wd.enter(&format!("rnd/{}", i));
